@@ -1897,7 +1897,23 @@ Definition mk_note_event (tick ts end_ts : Z) (note : list bool) (h : hopo) (sus
   {| n_at := {| t_tick := tick; t_ts := ts; t_idx := idx |}; n_end_ts := end_ts; n_note := note; n_sustain := sus; n_hopo := h; n_sp := spd |}.
 """
 
+def group_meta():
+    # Metadata.from_chart_lines and its three closures: a translator of its own (tools/extract_meta.py)
+    import extract_meta
+    extract_meta.REPO = REPO
+    try:
+        return extract_meta.group_meta()
+    except extract_meta.MetaError as e:
+        raise LeafError(str(e))
+
+
+def meta_header():
+    import extract_meta
+    return extract_meta.HEADER
+
+
 GROUPS = [
+    ("Leaf_meta", group_meta, None),
     ("Leaf_tick", group_tick, "From CP Require Import Base.Prelude Base.Float64.\nOpen Scope Z_scope.\n"),
     ("Leaf_special", group_special, "From CP Require Import Base.Prelude Base.Float64 Model.Sync Model.Instrument Gen.Leaf_tick.\nOpen Scope Z_scope.\n"),
     ("Leaf_hopo", group_hopo, "From CP Require Import Base.Prelude Base.Float64 Model.Sync Model.Instrument Gen.Leaf_tick Gen.Leaf_special.\nOpen Scope Z_scope.\n"),
@@ -1930,6 +1946,8 @@ def main():
     info = {"ok": True, "groups": {}}
     for name, fn, header in GROUPS:
         try:
+            if header is None:
+                header = meta_header()
             defs = fn()
             text = "(* GENERATED by tools/extract_leaf.py from the working tree of the repository — do not edit *)\n%s\n%s\n" % (header, "\n\n".join(defs))
             info["groups"][name] = {"ok": True, "definitions": len(defs)}
